@@ -342,6 +342,23 @@ def exec_ops(case):
         # the packed operand must not have been modified by a functional op
         if not torch.equal(p.unpack(), t):
             out.fail(f"{tag}/operand-changed", "functional op modified the packed operand")
+    # two PACKED operands: a tensor and the same tensor with extra all-zero rows (which land in the first one's padding
+    # whenever the row count is not a multiple of the packing factor), an equal copy, and a copy with one value changed
+    if t.numel():
+        vpi_ = 8 // case["bits"]
+        k = 1 + case["a"] % vpi_
+        longer = torch.cat([t.contiguous(), torch.zeros((k, *t.shape[1:]), dtype=t.dtype)])
+        changed = t.clone().contiguous()
+        changed.reshape(-1)[case["b"] % t.numel()] ^= 1
+        for name, other in (("longer-zero-rows", longer), ("equal-copy", t.clone().contiguous()), ("one-value-changed", changed)):
+            po = PackedTensor.pack(other, case["bits"])
+            for fname, fn in (("equal", torch.equal), ("allclose", lambda a, b: bool(a.shape == b.shape and torch.equal(a, b)))):
+                want = cut(fn, t, other)
+                got = cut(fn, p, po)
+                if isinstance(want, Raised):
+                    continue
+                if isinstance(got, Raised) or bool(got) != bool(want):
+                    out.fail(f"ops/{fname}-two-packed/{name}", f"{fname}(packed, packed) = {got!r}, on the unpacked values {want!r} (shape {list(t.shape)} vs {list(other.shape)}, bits {case['bits']})")
     vpi = 8 // case["bits"]
     out.nontrivial = True
     out.fingerprint = [case["op"], case["bits"], len(case["shape"]), t.shape[0] % vpi, case["layout"][0]]
